@@ -142,7 +142,7 @@ META = {
         technique='static analysis: axis-parametricity rule, form rules on term graphs, integer typing of shape arithmetic, may-alias in-place analysis',
         level='Every axis-consuming call in the 9 mask functions takes its axis from a parameter (literals only on the restored 2-D working array); binary / ratio / amplitude / phase-sensitive / '
               'complex masks have their defining form with the sum over source_axis; eps defaults are positive also in single precision; flatten dimensions are integers; quantile direction per sign; no caller mutation. '
-              'Threshold semantics on values and ties are NOT decided. Also: what the quantile mask ranks and compares are magnitudes (no path from the signal avoids abs). Also: axes are moved back to the positions named by the caller only on an array of the rank they were given for (not on a stack of results).',
+              'Threshold semantics on values and ties are NOT decided. Also: what the quantile mask ranks and compares are magnitudes (no path from the signal avoids abs). Also: axes are moved back to the positions named by the caller only on an array of the rank they were given for (not on a stack of results). Also: the working shape is (prod(shape[:-n]), prod(shape[-n:])), the destination axes are {-1..-n}, the row loop runs over the independent slices, and the returned mask has a data path to the VALUES of the signal.',
         note='Trusted: mask definitions in the statement; sibling lorenz_mask as reference idiom.',
         design='DESIGN.md section 3 (C18)'),
     'C19': dict(
@@ -150,7 +150,7 @@ META = {
         level='Both SXR functions compute _sxr(S, I+N), _sxr(S, I), _sxr(S, N) with identical S and the first denominator the sum of the others (for the pure ratio _sxr); own-source exclusion; input_sxr pools the sensors in the power domain (operands of _sxr are sensor means under average_channels, dB values are reduced over the source axis only); '
               'complete enumeration + arg-MAX output selection; return_dict True / prefix / False specialisations return dict / dict / tuple for both siblings; si_sdr reduces over -1 only with the '
               'projection form; set_snr exponent. dB values and scaling laws as numbers are NOT decided. '
-              'Also: power helper = mean |X|^2 over the axis parameter, set_snr multiplies the noise by the factor measured with keepdims over the same axis, the captured power is evaluated for every enumerated selection. Also: SDR, SIR and SNR go through the same post-processing after _sxr. Also: the interference is a SUM of the powers of the other sources, not total minus own (cancellation).',
+              'Also: power helper = mean |X|^2 over the axis parameter, set_snr multiplies the noise by the factor measured with keepdims over the same axis, the captured power is evaluated for every enumerated selection. Also: SDR, SIR and SNR go through the same post-processing after _sxr. Also: the interference is a SUM of the powers of the other sources, not total minus own (cancellation). Also: every power of the SXR functions is taken over the last (time) axis.',
         note='Trusted: metric definitions in the statement.',
         design='DESIGN.md section 3 (C19)'),
 }
